@@ -35,7 +35,16 @@ type Term struct {
 	Obj  *Object       // Op == "ptr"
 	Path Path          // Op == "ptr"
 	Win  *Window       // Op == "ptr" with a symbolic index: the slice window the index ranges over
-	key  string
+	// Mix: for the opaque stand-in of a large, partly initialised aggregate read from a zero-initialised object,
+	// the cells it was read from (paths relative to the aggregate), so that a whole-value copy keeps them.
+	Mix []MixCell
+	key string
+}
+
+// MixCell is one initialised part of a large aggregate value.
+type MixCell struct {
+	Rel Path
+	Val *Term
 }
 
 // Window is a constant index range [Lo,Hi) within the array a pointer with a
